@@ -13,7 +13,8 @@ Programs are core-style (gen/core.py: lines 1/2/3) extended with
   9 R F T sleep flags  plan: R repetitions from ONE builder, F from fresh builders, T threads, seed of the
                        pseudo-random sleeps in node code (0 = none); flags  1 noise runs between repetitions,
                        2 all reuse executors built before any runs, 4 threads build their own executors,
-                       8 further types interned between repetitions
+                       8 further types interned between repetitions, 16 the thread phase comes first (before the
+                       reuse / fresh / companion phases: first use of the shared builders' types is concurrent)
 
 Observation = the runs in print order, each introduced by a header
   40 rep phase          a run of the main program (phase 0 alone, 1 reused builder, 2 fresh builder, 3 thread)
@@ -87,7 +88,7 @@ def gen(rng, tier, prop):
     else:
         T = 0 if r < 0.3 else rng.randint(2, 8)
     sleep = 0 if rng.random() < 0.4 else rng.randint(1, 10 ** 6)
-    flags = rng.randint(0, 15)
+    flags = rng.randint(0, 31)
     if rng.random() < 0.5:
         flags |= 1
     case = [[9, R, F, T, sleep, flags]] + main
@@ -126,16 +127,16 @@ def expected_headers(case):
     m = len(secs) - 1
     pl = plan_of(case)
     comp = any(l and l[0] == 7 and len(l) >= 2 for l in secs[0])
-    evs = [("M", 0)]
-
     def nz(j):
         return [("N", 1 + j % m)] if (pl["flags"] & 1) and m > 0 else []
+    seq = []
     for r in range(max(0, pl["R"])):
-        evs += [("M", 1)] + nz(r)
+        seq += [("M", 1)] + nz(r)
     for f in range(max(0, pl["F"])):
-        evs += [("M", 2)] + nz(pl["R"] + f)
+        seq += [("M", 2)] + nz(pl["R"] + f)
     if comp:
-        evs += [("C", 1)] + nz(0) + [("C", 1)] + nz(1) + [("C", 2)]
+        seq += [("C", 1)] + nz(0) + [("C", 1)] + nz(1) + [("C", 2)]
+    thr = []
     for j in range(max(0, pl["T"])):
         kind = "MNCMDNMC"[j % 8]
         if kind == "D":
@@ -144,7 +145,8 @@ def expected_headers(case):
             kind = "M"
         if kind == "N" and m == 0:
             kind = "M"
-        evs.append(("N", 1 + (j // 2) % m) if kind == "N" else ("C", 3) if kind == "C" else ("M", 3))
+        thr.append(("N", 1 + (j // 2) % m) if kind == "N" else ("C", 3) if kind == "C" else ("M", 3))
+    evs = [("M", 0)] + (thr + seq if pl["flags"] & 16 else seq + thr)
     hdr, rep, n, crep = [], 0, 0, 0
     for k, a in evs:
         if k == "M":
@@ -349,6 +351,7 @@ def stats(case, out):
     st = {"noise_programs": len(secs) - 1, "threads": max(0, pl["T"]), "threaded_cases": int(pl["T"] > 0),
           "sleeping_cases": int(pl["sleep"] != 0), "flag_noise": pl["flags"] & 1, "flag_overlap": (pl["flags"] >> 1) & 1,
           "flag_thread_build": (pl["flags"] >> 2) & 1, "flag_intern": (pl["flags"] >> 3) & 1,
+          "flag_threads_first": (pl["flags"] >> 4) & 1,
           "companion_cases": int(any(l[0] == 7 for l in secs[0])),
           "seed_keys": sum(1 for l in secs[0] if l[0] == 6), "gs_ops_declared": sum(1 for l in secs[0] if l[0] == 4),
           "state_nodes": sum(1 for l in secs[0] if l[0] == 5)}
@@ -394,7 +397,7 @@ def shrink(case):
     if plan_line[4] != 0:
         p2 = list(plan_line); p2[4] = 0
         yield build(main, noises, p2)
-    for bit in (1, 2, 4, 8):
+    for bit in (1, 2, 4, 8, 16):
         if plan_line[5] & bit:
             p2 = list(plan_line); p2[5] &= ~bit
             yield build(main, noises, p2)
